@@ -266,6 +266,28 @@ MUTANTS = [
      "                    damping=self.damping * (1 + 0.01 * int(\n"
      "                        self._assignment.broadcast_gradients())),\n"
      "                )", ['C02']),
+    ('bucket_futures_resolved_early', 'kfac/distributed.py',
+     "        _future.add_done_callback(_callback)\n\n        return _future",
+     "        if len(self._tensors) > 1:\n"
+     "            for sub_tensor, sub_future in zip(\n"
+     "                unflatten(tensor, self._tensors), self._futures,\n"
+     "            ):\n"
+     "                sub_future.set_result(sub_tensor)\n"
+     "            self._tensors, self._futures = [], []\n"
+     "            return _future\n"
+     "        _future.add_done_callback(_callback)\n\n        return _future",
+     ['C08', 'C04']),
+    ('grad_buffer_reused_in_flight', 'kfac/layers/base.py',
+     "        self.grad = self.tdc.broadcast(  # type: ignore\n"
+     "            self.grad,\n            src=src,\n            group=group,\n"
+     "        )",
+     "        buf = self.grad\n"
+     "        self.grad = self.tdc.broadcast(  # type: ignore\n"
+     "            self.grad,\n            src=src,\n            group=group,\n"
+     "        )\n"
+     "        if get_rank() == src and isinstance(self._grad, Future):\n"
+     "            buf.zero_()",
+     ['C03']),
 ]
 
 
